@@ -3,7 +3,8 @@
 Every raise site {unary, unary after logs, stream init, stream init of a header stream, first producer step,
 later producer step, producer step after an emit in the same call, exchange first / later step} x exception class
 {ValueError, KeyError, RuntimeError, TypeError, ArrowInvalid, PermissionError, custom BoomError, custom KindError
-(declares error_kind), MethodNotImplementedError, ProtocolVersionError, SessionLostError, ServerDrainingError} x
+(declares error_kind), MethodNotImplementedError, ProtocolVersionError, SessionLostError, ServerDrainingError,
+RefinedSessionLost (subclass of SessionLostError, kind inherited), RefinedKindError (subclass of KindError)} x
 message {empty, ascii, unicode, multi-line, 10 kB, text that looks like log metadata} x transports {mem, pipe,
 HTTP with cap None / 10^6 and compression on/off} (+ unix, shm, subprocess in thorough).
 
@@ -41,8 +42,8 @@ LEVEL_TEXT = (
     "Every combination of a finite grammar of failure programs is executed on every transport with the real client and "
     "server; the property quantifies over programs and inputs (exception classes, messages, sites)."
 )
-LEVEL_NOTE = "12 exception classes, 6 messages, 9 sites; HTTP observed through a recording wrapper around the in-process client."
-ASSUMPTIONS = ["error kinds are those declared as `error_kind` class attributes"]
+LEVEL_NOTE = "14 exception classes (two of them subclasses that inherit their error kind), 6 messages, 9 sites; HTTP observed through a recording wrapper around the in-process client."
+ASSUMPTIONS = ["error kinds are those visible as an `error_kind` class attribute of the exception, declared or inherited"]
 
 KINDS = {
     "MethodNotImplementedError": "method_not_implemented",
@@ -50,6 +51,9 @@ KINDS = {
     "SessionLostError": "session_lost",
     "ServerDrainingError": "server_draining",
     "KindError": "custom_kind",
+    # subclasses that INHERIT the kind (an instance of a typed framework error whose class does not redeclare it)
+    "RefinedSessionLost": "session_lost",
+    "RefinedKindError": "custom_kind",
 }
 CLASSES = ["ValueError", "KeyError", "RuntimeError", "TypeError", "ArrowInvalid", "PermissionError", "BoomError", *KINDS]
 MESSAGES = {
